@@ -12,6 +12,7 @@ type segScenario struct {
 	radiusKind string // "zero" | "threshold" | "free"
 	f          float64
 	aligned    bool // midpoint on a tile boundary in longitude and altitude
+	world      bool // spans (almost) the whole grid
 }
 
 func clamp(x, lo, hi float64) float64 { return math.Max(lo, math.Min(hi, x)) }
@@ -60,6 +61,27 @@ func genSegment(g *Gen, maxVox int64, sameZoom ...bool) segScenario {
 		nx, ny = span()/2, span()/2
 	}
 	vh := float64(pow2(25)) / float64(pow2(sc.vz)) // metres per vertical voxel
+	if g.R.Chance(1, 30) {
+		// world-spanning segment on a coarse grid: the corridor wraps around the tile grid and
+		// can meet itself (almost 360 degrees of longitude, or nearly pole to pole)
+		sc.hz = g.R.Range(2, 6)
+		a := float64(g.R.Range(-2, 3)) * vh
+		if g.R.Chance(2, 3) {
+			l1, l2 := -179.9+15*g.R.Float64(), 179.9-15*g.R.Float64()
+			la := -60 + 120*g.R.Float64()
+			sc.start = [3]float64{round10(l1), round10(la), a}
+			sc.end = [3]float64{round10(l2), round10(clamp(la+20*(g.R.Float64()-0.5), -80, 80)), a}
+		} else {
+			lo := -170 + 340*g.R.Float64()
+			sc.start = [3]float64{round10(lo), round10(-84 + 6*g.R.Float64()), a}
+			sc.end = [3]float64{round10(clamp(lo+10*(g.R.Float64()-0.5), -179.9, 179.9)), round10(84 - 6*g.R.Float64()), a}
+		}
+		if g.R.Chance(1, 2) {
+			sc.start, sc.end = sc.end, sc.start
+		}
+		sc.world = true
+		return sc
+	}
 	if sc.hz >= 4 && g.R.Chance(1, 8) {
 		// boundary-aligned segment: its midpoint sits on a tile boundary in longitude and in
 		// altitude (and, half of the time, on the equator), so the midpoint recursion of the line
@@ -112,6 +134,16 @@ func genCorridor(g *Gen, maxVox int64, maxF float64) segScenario {
 	}
 	la, lb := sc.start[1], sc.end[1]
 	x := g.R.Intn(10)
+	if sc.world {
+		// on a grid this coarse only tiny radii are meaningful (and terminate)
+		sc.radius, sc.radiusKind = []float64{0, 0.0004, 1, 250}[g.R.Intn(4)], "world"
+		return sc
+	}
+	if g.R.Chance(1, 20) {
+		// sub-millimetre radius: positive, yet below any rounding a cache key might apply
+		sc.radius, sc.radiusKind = []float64{0.0001, 0.0004, 0.00049}[g.R.Intn(3)], "tiny"
+		return sc
+	}
 	if sc.aligned && g.R.Chance(1, 2) {
 		x = 0 // the radius-0 identity is where a one-voxel difference of the line shows
 	}
